@@ -546,6 +546,11 @@ fn main() {
                 let k: usize = t[1].parse().unwrap();
                 c.files[0].0.borrow_mut().fail_by_index = Some(base + k);
             }
+            "failidx_abs" => {
+                let c = cur.as_mut().unwrap();
+                let k: usize = t[1].parse().unwrap();
+                c.files[0].0.borrow_mut().fail_by_index = Some(k);
+            }
             "faults" => {
                 let c = cur.as_mut().unwrap();
                 for f in &c.files {
